@@ -362,6 +362,8 @@ KERNEL_FAMILIES = {
     'Ins': [('circuit-ins', (3, 2)), ('circuit-ins', (30, 4)), ('proof-ins', (3, 2))],
     'Del': [('circuit-del', (3, 2)), ('circuit-del', (30, 4)), ('proof-del', (3, 2))],
     'Bits': [('trbe', (251, 8)), ('trbe', (65521, 16))],
+    # C05: both Poseidon gadgets fully expanded (every round constant a `c:<n>` operand)
+    'Poseidon': [('poseidon', (2,)), ('poseidon', (1,))],
     # C17: the text is not the Go recorder's but the flattening (tools/flatten_extraction.py, hash
     # gadgets kept as call lines) of the model COMMITTED under /repo/formal-verification
     'Extract': [('extract-ins', (30, 4)), ('extract-del', (30, 4))],
@@ -389,6 +391,11 @@ def _kernel_target(kind, dims):
         return (['--opaque=Poseidon2', g, str(d), str(b)], name, f'traceOf ["Poseidon2"] {prog}', f'resultOf ["Poseidon2"] {prog}',
                 lambda res: (f'def {name}_meaning {{p : ℕ}} [Fact p.Prime] (hd : 2 ^ {e} ≤ p) :=\n'
                              f'  {lemma} (p := p) {d} {b} hd {name} ({res[0]}) {name}_eq (by decide +kernel)'))
+    if kind == 'poseidon':
+        n, = dims
+        name = f'goPoseidon{n}'
+        return ([f'Poseidon{n}'], name, f'traceOf [] tracePoseidon{n}', f'resultOf [] tracePoseidon{n}',
+                lambda res: (f'def {name}_meaning {{p : ℕ}} [NeZero p] :=\n  poseidon{n}_meaning (p := p) {name} ({res[0]}) {name}_eq (by decide +kernel)'))
     if kind == 'trbe':
         P, n = dims
         name = f'goToReducedBigEndian_{P}_{n}'
@@ -441,7 +448,7 @@ def kernel_trace_tie(ctx, family, kinds=None):
         audit_names += [f'Smtb.Gen.{mod}.{name}_eq', f'Smtb.Gen.{mod}.{name}_meaning']
         included.append((label, len(lines)))
     src = ('import Smtb.Properties.GoTrace\n/-! Regenerated on every run by checks/common.py (kernel_trace_tie) from the Go recorder\'s trace of the\ntree under test.  Do not edit. -/\n'
-           'set_option maxRecDepth 1000000\n'
+           'set_option maxRecDepth 1000000\nset_option linter.defProp false\n'
            f'namespace Smtb.Gen.{mod}\nopen Smtb Smtb.TraceSound Smtb.TraceHarness Smtb.Properties.GoTrace\n\n'
            + '\n'.join(body) + f'\n\nend Smtb.Gen.{mod}\n')
     gen = os.path.join(LEAN, 'Smtb', 'Gen', mod + '.lean')
@@ -457,7 +464,8 @@ def kernel_trace_tie(ctx, family, kinds=None):
     try:
         lake_build(['Smtb.Properties.GoTrace'])
         audit(ctx, 'Smtb/Properties/GoTrace.lean', ['Smtb.Properties.GoTrace.' + t for t in (
-            'insertion_circuit_meaning', 'deletion_circuit_meaning', 'insertionProof_meaning', 'deletionProof_meaning', 'toReducedBigEndian_meaning')])
+            'insertion_circuit_meaning', 'deletion_circuit_meaning', 'insertionProof_meaning', 'deletionProof_meaning', 'toReducedBigEndian_meaning',
+            'poseidon2_meaning', 'poseidon1_meaning')])
         _built.pop(('lake', (f'Smtb.Gen.{mod}',)), None)
         lake_build([f'Smtb.Gen.{mod}'])
         audit(ctx, f'Smtb/Gen/{mod}Audit.lean', audit_names)
